@@ -89,8 +89,20 @@ def work_bounds(case, c: int):
         return None, None
     lb, ub = ds["lb"][c], ds["ub"][c]
     if ds["normalize"] and lb is not None and ub is not None:
-        return Fraction(0), Fraction(1)
+        # t = (x - lb) / (ub - lb); a frozen component (lb == ub) has the single admissible value t = 0
+        # (DesignSpace normalises such a component with the factor 1)
+        return Fraction(0), (Fraction(0) if Fraction(lb) == Fraction(ub) else Fraction(1))
     return (None if lb is None else Fraction(lb)), (None if ub is None else Fraction(ub))
+
+
+def blocked_both(case, c: int) -> bool:
+    """Neither x + h nor x - h lies inside the working-space bounds of component c."""
+    lo, up = work_bounds(case, c)
+    if lo is None or up is None:
+        return False
+    x = Fraction(case["x"][c])
+    h = step_of(case, c)
+    return x + h > up and x - h < lo
 
 
 def case_line(case, mode: str | None = None) -> str:
@@ -132,7 +144,33 @@ def ordered_subsets(n: int):
     return out
 
 
-def gen_case(rng, scheme=None, n=None, idx=None, vec=None, with_ds=None, smax_cap: int = 26) -> dict[str, Any]:
+TIGHT_KINDS = ["frozen", "frozen", "narrow-ub", "narrow-ub", "narrow-lb", "narrow-in", "mid", "one-step-ub", "one-step-lb"]
+
+
+def tight_layout(rng, kind: str, lb: Fraction, h: Fraction) -> tuple[Fraction, Fraction]:
+    """(upper bound, point) of a component whose admissible interval is short compared with the step h:
+    frozen (lb == ub), narrower than the step (point on the upper / lower bound or inside), shorter than two steps
+    with the point in the middle (neither x+h nor x-h is inside), exactly one step wide (x±h lands on the other bound)."""
+    if kind == "frozen":
+        return lb, lb
+    if kind == "narrow-ub":
+        ub = lb + h * rng.pick([Fraction(1, 2), Fraction(1, 4), Fraction(3, 4)])
+        return ub, ub
+    if kind == "narrow-lb":
+        return lb + h * rng.pick([Fraction(1, 2), Fraction(1, 4), Fraction(3, 4)]), lb
+    if kind == "narrow-in":
+        return lb + h / 2, lb + h / 4
+    if kind == "mid":
+        return lb + 3 * h / 2, lb + 3 * h / 4
+    if kind == "one-step-ub":
+        return lb + h, lb + h
+    if kind == "one-step-lb":
+        return lb + h, lb
+    raise ValueError(kind)
+
+
+def gen_case(rng, scheme=None, n=None, idx=None, vec=None, with_ds=None, smax_cap: int = 26,
+             tight_p: float = 0.2, force_tight: bool = False, norm_frozen_ok: bool = True) -> dict[str, Any]:
     scheme = scheme or rng.pick(["fd", "fd", "cd", "cd", "cs"])
     n = n or rng.pick([1, 2, 2, 3, 3, 4])
     m = rng.pick([1, 1, 2, 3])
@@ -157,10 +195,25 @@ def gen_case(rng, scheme=None, n=None, idx=None, vec=None, with_ds=None, smax_ca
     ds = None
     x: list[Fraction] = []
     if with_ds:
-        normalize = rng.chance(0.5)
+        normalize = rng.chance(0.3 if force_tight else 0.5) and (norm_frozen_ok or not force_tight)
         lbs, ubs = [], []
+        forced = rng.pick(idx or list(range(n))) if force_tight else None
         for c in range(n):
             lb = Fraction(rng.randint(-16, 0), 4)
+            h = hs[c]
+            # a component whose admissible interval around the point is shorter than the step (frozen variable,
+            # interval narrower than the step, ...): inside the quantifier ("all points, including points on the bounds")
+            if c == forced or rng.chance(tight_p):
+                kind = rng.pick(TIGHT_KINDS)
+                if normalize or h < Fraction(1, 2**30):
+                    # a normalised component lives in [0, 1] whatever its physical width, unless it is frozen
+                    kind = "frozen" if (norm_frozen_ok or not normalize) and (c == forced or rng.chance(0.5)) else None
+                if kind is not None:
+                    ub, v = tight_layout(rng, kind, lb, h)
+                    lbs.append(lb)
+                    ubs.append(ub)
+                    x.append(Fraction(0) if normalize else v)
+                    continue
             width = Fraction(rng.pick([1, 1, 2, 4, 8]))
             if rng.chance(0.1) and not normalize:
                 width = Fraction(1, 2)
@@ -171,7 +224,6 @@ def gen_case(rng, scheme=None, n=None, idx=None, vec=None, with_ds=None, smax_ca
             ubs.append(None if ub_inf else ub)
             normed = normalize and not lb_inf and not ub_inf
             wl, wu = (Fraction(0), Fraction(1)) if normed else (lb, ub)
-            h = hs[c]
             r = rng.random()
             if r < 0.25 and not ub_inf:
                 v = wu
@@ -237,13 +289,22 @@ def gen_rounded_case(rng) -> dict[str, Any]:
         lbs, ubs = [], []
         for c in range(n):
             lb = Fraction(rng.randint(-16, 0), 4)
+            h = F(hs[c])
+            if rng.chance(0.2):
+                # frozen component / interval shorter than the step (bounds and point rounded to floats)
+                kind = "frozen" if normalize else rng.pick(["frozen", "narrow-ub", "narrow-lb", "narrow-in", "mid"])
+                ub, v = tight_layout(rng, kind, lb, h)
+                ub, v = F(float(ub)), F(float(v))
+                lbs.append(lb)
+                ubs.append(ub)
+                x.append(Fraction(0) if normalize else min(max(v, lb), ub))
+                continue
             ub = lb + Fraction(rng.pick([1, 2, 4, 8]))
             lb_inf, ub_inf = rng.chance(0.1), rng.chance(0.1)
             lbs.append(None if lb_inf else lb)
             ubs.append(None if ub_inf else ub)
             normed = normalize and not lb_inf and not ub_inf
             wl, wu = (Fraction(0), Fraction(1)) if normed else (lb, ub)
-            h = F(hs[c])
             r = rng.random()
             if r < 0.25 and not ub_inf:
                 v = float(wu)
@@ -305,8 +366,8 @@ def gen_exact_case(rng, res: Result | None = None, **kw) -> dict[str, Any]:
 
 
 def in_scope(case) -> bool:
-    """The property's quantifier: positive steps not larger than the width of the bounds, point inside the
-    bounds, distinct valid indices, one step per input component."""
+    """The property's quantifier: positive steps, point inside the bounds (of any width, including frozen
+    components and intervals narrower than the step), distinct valid indices, one step per input component."""
     n = case["n"]
     idx = case["idx"]
     if len(set(idx)) != len(idx) or any(not (0 <= i < n) for i in idx):
@@ -323,8 +384,6 @@ def in_scope(case) -> bool:
         if lo is not None and x[c] < lo:
             return False
         if up is not None and x[c] > up:
-            return False
-        if lo is not None and up is not None and h > up - lo:
             return False
     return True
 
@@ -795,6 +854,18 @@ def neighbours(case, rng):
                     c = dict(case)
                     c["x"] = case["x"][:t] + [rat(v)] + case["x"][t + 1 :]
                     yield c
+        if not case["ds"]["normalize"]:
+            # the interval of one component shrunk around the point: frozen, narrower than the step
+            for t in eff_idx(case):
+                xt, h = Fraction(case["x"][t]), step_of(case, t)
+                for lo2, up2 in ((xt, xt), (xt - h / 2, xt), (xt, xt + h / 2), (xt - h / 4, xt + h / 4)):
+                    c = dict(case)
+                    c["ds"] = {
+                        "lb": case["ds"]["lb"][:t] + [rat(lo2)] + case["ds"]["lb"][t + 1 :],
+                        "ub": case["ds"]["ub"][:t] + [rat(up2)] + case["ds"]["ub"][t + 1 :],
+                        "normalize": False,
+                    }
+                    yield c
     for _ in range(60):
         c = gen_exact_case(
             rng,
@@ -802,7 +873,7 @@ def neighbours(case, rng):
             n=n,
             vec=isinstance(case["step"], list),
             with_ds=bool(case.get("ds")),
-            **({"idx": []} if problem else {}),
+            **({"idx": [], "norm_frozen_ok": False} if problem else {}),
         )
         if problem:
             c.update(level="problem", scalar_out=False, step_via="arg")
@@ -821,16 +892,14 @@ def sample_x(rng, n: int, ds, hs: list[Fraction]) -> list[Fraction]:
             x.append(Fraction(0) if rng.chance(0.25) else Fraction(rng.randint(-16, 16), 4))
             continue
         lb, ub = ds["lb"][c], ds["ub"][c]
-        normed = ds["normalize"] and lb is not None and ub is not None
-        wl = Fraction(0) if normed else (None if lb is None else Fraction(lb))
-        wu = Fraction(1) if normed else (None if ub is None else Fraction(ub))
+        wl, wu = work_bounds({"ds": ds}, c)
         h = hs[c]
         r = rng.random()
         if r < 0.3 and wu is not None:
             v = wu
         elif r < 0.4 and wl is not None:
             v = wl
-        elif r < 0.6 and wu is not None:
+        elif r < 0.6 and wu is not None and (wl is None or wu - h / 2 >= wl):
             v = wu - h / 2
         elif wl is not None and wu is not None:
             v = wl + (wu - wl) * Fraction(rng.randint(1, 15), 16)
@@ -1478,6 +1547,15 @@ def check_cases(res: Result, cases: list[dict[str, Any]], rng, scope: bool = Tru
                     res.count("point:within-one-step-of-upper-bound")
                 if lo is not None and x[c] == lo:
                     res.count("point:on-lower-bound")
+                if lo is not None and up is not None:
+                    if lo == up:
+                        res.count("ds:frozen-component(lb==ub)")
+                    elif up - lo < h:
+                        res.count("ds:interval-narrower-than-step")
+                    elif up - lo < 2 * h:
+                        res.count("ds:interval-narrower-than-two-steps")
+                    if blocked_both(case, c):
+                        res.count(f"point:x+h>ub-and-x-h<lb[{case['scheme']}{',parallel' if par else ''}{',problem' if case.get('level') == 'problem' else ''}]")
         if any(Fraction(v) == 0 for v in case["x"]):
             res.count("point:has-zero-component")
         if case["n"] >= 2 or case["m"] >= 2:
@@ -1697,9 +1775,19 @@ def run(ctx) -> Result:
         check_cases(res, batch[i : i + 2000], rng)
     # the same approximators reached through OptimizationProblem(differentiation_method=...), physical-space
     # function, normalised or not: bound safety where it matters in practice
+    # tight design spaces: at least one differentiated component is frozen (lb == ub) or lives in an interval shorter
+    # than one / two steps, so that neither x+h nor x-h is admissible (serial, then multiprocessing-parallel)
+    ntight = 2400 if ctx.thorough else 240
+    tcs = [gen_exact_case(rng, res, scheme=rng.pick(["fd", "fd", "cd", "cd", "cs"]), with_ds=True, force_tight=True)
+           for _ in range(ntight)]
+    check_cases(res, tcs, rng)
+    res.count("stream=tight-design-space", len(tcs))
+    tps = [gen_exact_case(rng, res, scheme=rng.pick(["fd", "fd", "cd"]), with_ds=True, force_tight=True)
+           for _ in range(200 if ctx.thorough else 24)]
+    check_cases(res, tps, rng, True, "process")
     pcs = []
-    for _ in range(1500 if ctx.thorough else 150):
-        c = gen_exact_case(rng, res, with_ds=True, vec=False, idx=[])
+    for t in range(1500 if ctx.thorough else 150):
+        c = gen_exact_case(rng, res, with_ds=True, vec=False, idx=[], norm_frozen_ok=False, force_tight=t % 3 == 0)
         c.update(level="problem", scalar_out=False, step_via="arg")
         pcs.append(c)
     check_cases(res, pcs, rng)
